@@ -63,18 +63,18 @@ func VerifC03Driver() {
 			} else {
 				var w <-chan struct{}
 				old, had, w, err = d.table.InsertWatch(wtxn, obj)
-				vnd.Assert(vnd.Not(vnd.IsClosed(w)), "C03.insertwatch.open")
+				pa(vnd.Not(vnd.IsClosed(w)), "C03.insertwatch.open")
 			}
 			mo, mh := pending.vals.Put(k, val)
 			pending.rev++
 			pending.revs.Put(k, pending.rev)
-			vnd.Assert(err == nil, "C03.insert.err")
-			vnd.Assert(vnd.Iff(had, mh), "C03.insert.had")
+			pa(err == nil, "C03.insert.err")
+			pa(vnd.Iff(had, mh), "C03.insert.had")
 			if had {
-				vnd.Assert(vnd.Implies(mh, old.val == mo), "C03.insert.old")
+				pa(vnd.Implies(mh, old.val == mo), "C03.insert.old")
 				vnd.Cover("C03.replaced")
 			}
-			vnd.Assert(d.table.Revision(wtxn) == pending.rev, "C09.insert.revision")
+			pa(d.table.Revision(wtxn) == pending.rev, "C09.insert.revision")
 		case wModify:
 			k := vnd.Bytes("k", L)
 			obj := &vobj{id: k, val: val}
@@ -85,27 +85,27 @@ func VerifC03Driver() {
 			pending.vals.Put(k, vnd.IteU64(mh, mo*2+val, val))
 			pending.rev++
 			pending.revs.Put(k, pending.rev)
-			vnd.Assert(err == nil, "C03.modify.err")
-			vnd.Assert(vnd.Iff(had, mh), "C03.modify.had")
+			pa(err == nil, "C03.modify.err")
+			pa(vnd.Iff(had, mh), "C03.modify.had")
 			if had {
-				vnd.Assert(vnd.Implies(mh, old.val == mo), "C03.modify.old")
+				pa(vnd.Implies(mh, old.val == mo), "C03.modify.old")
 			}
-			vnd.Assert(d.table.Revision(wtxn) == pending.rev, "C09.modify.revision")
+			pa(d.table.Revision(wtxn) == pending.rev, "C09.modify.revision")
 		case wDelete:
 			k := vnd.Bytes("k", L)
 			old, had, err := d.table.Delete(wtxn, &vobj{id: k})
 			mo, mh := pending.vals.Del(k)
 			pending.revs.Del(k)
 			pending.rev = vnd.IteU64(mh, pending.rev+1, pending.rev)
-			vnd.Assert(err == nil, "C03.delete.err")
-			vnd.Assert(vnd.Iff(had, mh), "C03.delete.had")
+			pa(err == nil, "C03.delete.err")
+			pa(vnd.Iff(had, mh), "C03.delete.had")
 			if had {
-				vnd.Assert(vnd.Implies(mh, old.val == mo), "C03.delete.old")
+				pa(vnd.Implies(mh, old.val == mo), "C03.delete.old")
 				vnd.Cover("C03.deleted-existing")
 			} else {
 				vnd.Cover("C03.deleted-absent")
 			}
-			vnd.Assert(d.table.Revision(wtxn) == pending.rev, "C09.delete.revision")
+			pa(d.table.Revision(wtxn) == pending.rev, "C09.delete.revision")
 		case wCAS:
 			k := vnd.Bytes("k", L)
 			guard := vnd.Uint64("guard")
@@ -117,19 +117,19 @@ func VerifC03Driver() {
 			pending.vals.PutIf(succeed, k, val)
 			pending.rev = vnd.IteU64(succeed, pending.rev+1, pending.rev)
 			pending.revs.PutIf(succeed, k, pending.rev)
-			vnd.Assert(vnd.Iff(err == nil, succeed), "C03.cas.success")
+			pa(vnd.Iff(err == nil, succeed), "C03.cas.success")
 			if err != nil {
-				vnd.Assert(vnd.Iff(errors.Is(err, ErrObjectNotFound), vnd.Not(mh)), "C03.cas.notfound")
-				vnd.Assert(vnd.Iff(errors.Is(err, ErrRevisionNotEqual), mh), "C03.cas.notequal")
+				pa(vnd.Iff(errors.Is(err, ErrObjectNotFound), vnd.Not(mh)), "C03.cas.notfound")
+				pa(vnd.Iff(errors.Is(err, ErrRevisionNotEqual), mh), "C03.cas.notequal")
 				vnd.Cover("C03.cas-rejected")
 			} else {
 				vnd.Cover("C03.cas-ok")
 			}
-			vnd.Assert(vnd.Iff(had, mh), "C03.cas.had")
+			pa(vnd.Iff(had, mh), "C03.cas.had")
 			if had {
-				vnd.Assert(vnd.Implies(mh, old.val == mo), "C03.cas.old")
+				pa(vnd.Implies(mh, old.val == mo), "C03.cas.old")
 			}
-			vnd.Assert(d.table.Revision(wtxn) == pending.rev, "C09.cas.revision")
+			pa(d.table.Revision(wtxn) == pending.rev, "C09.cas.revision")
 		case wCAD:
 			k := vnd.Bytes("k", L)
 			guard := vnd.Uint64("guard")
@@ -140,19 +140,19 @@ func VerifC03Driver() {
 			pending.vals.DelIf(succeed, k)
 			pending.revs.DelIf(succeed, k)
 			pending.rev = vnd.IteU64(succeed, pending.rev+1, pending.rev)
-			vnd.Assert(vnd.Iff(had, mh), "C03.cad.had")
-			vnd.Assert(vnd.Iff(err == nil, vnd.Or(succeed, vnd.Not(mh))), "C03.cad.err")
+			pa(vnd.Iff(had, mh), "C03.cad.had")
+			pa(vnd.Iff(err == nil, vnd.Or(succeed, vnd.Not(mh))), "C03.cad.err")
 			if err != nil {
-				vnd.Assert(errors.Is(err, ErrRevisionNotEqual), "C03.cad.notequal")
+				pa(errors.Is(err, ErrRevisionNotEqual), "C03.cad.notequal")
 				vnd.Cover("C03.cad-rejected")
 			}
 			if had {
-				vnd.Assert(vnd.Implies(mh, old.val == mo), "C03.cad.old")
+				pa(vnd.Implies(mh, old.val == mo), "C03.cad.old")
 			}
-			vnd.Assert(d.table.Revision(wtxn) == pending.rev, "C09.cad.revision")
+			pa(d.table.Revision(wtxn) == pending.rev, "C09.cad.revision")
 		case wDeleteAll:
 			err := d.table.DeleteAll(wtxn)
-			vnd.Assert(err == nil, "C03.deleteall.err")
+			pa(err == nil, "C03.deleteall.err")
 			n := pending.vals.Len()
 			for j := range pending.vals.E {
 				pending.vals.E[j].Present = false
@@ -161,15 +161,15 @@ func VerifC03Driver() {
 				pending.revs.E[j].Present = false
 			}
 			pending.rev = pending.rev + uint64(n)
-			vnd.Assert(d.table.NumObjects(wtxn) == 0, "C03.deleteall.empty")
-			vnd.Assert(d.table.Revision(wtxn) == pending.rev, "C09.deleteall.revision")
+			pa(d.table.NumObjects(wtxn) == 0, "C03.deleteall.empty")
+			pa(d.table.Revision(wtxn) == pending.rev, "C09.deleteall.revision")
 		case wCommit:
 			rtxn := wtxn.Commit()
 			lastClosed = wtxn
 			committed = pending.snapshot()
 			q := vnd.Bytes("cq", L)
-			checkTable(d.table, rtxn, committed, q, "C03.commit-snapshot")
-			vnd.Assert(d.table.Revision(d.db.ReadTxn()) >= snapRev, "C09.revision.monotone")
+			checkTable(d.table, rtxn, committed, q, "commit-snapshot")
+			pa(d.table.Revision(d.db.ReadTxn()) >= snapRev, "C09.revision.monotone")
 			snapRev = d.table.Revision(d.db.ReadTxn())
 			wtxn = d.db.WriteTxn(d.table)
 			vnd.Cover("C03.committed")
@@ -177,7 +177,7 @@ func VerifC03Driver() {
 			wtxn.Abort()
 			lastClosed = wtxn
 			pending = committed.snapshot()
-			vnd.Assert(d.table.Revision(d.db.ReadTxn()) == committed.rev, "C09.abort.revision")
+			pa(d.table.Revision(d.db.ReadTxn()) == committed.rev, "C09.abort.revision")
 			wtxn = d.db.WriteTxn(d.table)
 			vnd.Cover("C03.aborted")
 		case wWrongTable:
@@ -192,9 +192,9 @@ func VerifC03Driver() {
 			case 2:
 				_, _, err = other.CompareAndSwap(wtxn, 1, &vobj{id: k, val: val})
 			}
-			vnd.Assert(err != nil && errors.Is(err, ErrTableNotLockedForWriting), "C03.wrongtable.err")
-			vnd.Assert(other.NumObjects(wtxn) == 0, "C03.wrongtable.unchanged")
-			vnd.Assert(other.Revision(wtxn) == 0, "C09.wrongtable.revision")
+			pa(err != nil && errors.Is(err, ErrTableNotLockedForWriting), "C03.wrongtable.err")
+			pa(other.NumObjects(wtxn) == 0, "C03.wrongtable.unchanged")
+			pa(other.Revision(wtxn) == 0, "C09.wrongtable.revision")
 			vnd.Cover("C03.wrong-table")
 		case wClosedTxn:
 			if lastClosed == nil {
@@ -214,27 +214,27 @@ func VerifC03Driver() {
 			case 4:
 				_, _, err = d.table.Modify(lastClosed, &vobj{id: k, val: val}, func(o, n *vobj) *vobj { return n })
 			}
-			vnd.Assert(err != nil && errors.Is(err, ErrTransactionClosed), "C03.closedtxn.err")
+			pa(err != nil && errors.Is(err, ErrTransactionClosed), "C03.closedtxn.err")
 			vnd.Cover("C03.closed-txn")
 		}
 	}
 	// reads inside the transaction see its own writes
 	q := vnd.Bytes("q", L)
-	checkTable(d.table, wtxn, pending, q, "C03.pending")
+	checkTable(d.table, wtxn, pending, q, "pending")
 	// other transactions see the committed state only
-	checkTable(d.table, d.db.ReadTxn(), committed, q, "C03.committed-view")
+	checkTable(d.table, d.db.ReadTxn(), committed, q, "committed-view")
 	// live objects have pairwise distinct revisions; by-revision order
 	_, _, revs := collectObjs(d.table.LowerBound(wtxn, ByRevision[*vobj](0)))
 	for j := 0; j+1 < len(revs); j++ {
-		vnd.Assert(revs[j] < revs[j+1], "C09.byrevision.ascending")
+		pa(revs[j] < revs[j+1], "C09.byrevision.ascending")
 	}
-	vnd.Assert(len(revs) == pending.vals.Len(), "C09.byrevision.complete")
+	pa(len(revs) == pending.vals.Len(), "C09.byrevision.complete")
 	if vnd.IntRange("end", 0, 1) == 0 {
 		wtxn.Commit()
-		checkTable(d.table, d.db.ReadTxn(), pending, q, "C03.final-commit")
+		checkTable(d.table, d.db.ReadTxn(), pending, q, "final-commit")
 	} else {
 		wtxn.Abort()
-		checkTable(d.table, d.db.ReadTxn(), committed, q, "C03.final-abort")
+		checkTable(d.table, d.db.ReadTxn(), committed, q, "final-abort")
 	}
 	vnd.Cover("C03.end")
 }
